@@ -331,7 +331,14 @@ impl<'a> Ctx<'a> {
     }
 
     fn resolve_method_of(&mut self, strukt: &str, elem: &str, method: &str) -> Option<Target> {
-        let is_self = strukt == "Self" || Some(strukt.to_string()) == self.self_struct && Some(elem.to_string()) == self.elem;
+        let strukt_owned = if strukt == "Self" {
+            self.self_struct.clone().unwrap_or_else(|| "Self".to_string())
+        } else {
+            strukt.to_string()
+        };
+        let strukt = strukt_owned.as_str();
+        let is_self = strukt == "Self"
+            || (Some(strukt.to_string()) == self.self_struct && Some(elem.to_string()) == self.elem);
         if is_self {
             let sig = self.sig_with_self(&self.trait_sig(method)?);
             match &mut self.self_mode {
